@@ -139,6 +139,8 @@ def check_hand(v, objs_in):
 # ---------------------------------------------------------------------------------------------- stream dictionaries, fonts
 
 LZW_DEFAULTS = {"Predictor": 1, "Colors": 1, "BitsPerComponent": 8, "Columns": 1, "EarlyChange": 1}
+CCITT_DEFAULTS = {"K": 0, "EndOfLine": False, "EncodedByteAlign": False, "Columns": 1728, "Rows": 0, "EndOfBlock": True,
+                  "BlackIs1": False, "DamagedRowsBeforeError": 0}          # ISO 32000-1 Table 11
 PARAM_FILTERS = ("FlateDecode", "LZWDecode")
 STREAM_KEYS = ("Length", "Filter", "DecodeParms", "F", "FFilter", "FDecodeParms")
 
@@ -153,7 +155,8 @@ def eff_filters(d, fk="Filter", pk="DecodeParms"):
     out = []
     for i, n in enumerate(names):
         pd = parms[i] if i < len(parms) and isinstance(parms[i], dict) else {}
-        out.append((str(n), sorted((k, float(v)) for k, v in pd.items() if LZW_DEFAULTS.get(k) != v)))
+        dflt = CCITT_DEFAULTS if str(n) == "/CCITTFaxDecode" else LZW_DEFAULTS
+        out.append((str(n), sorted((k, float(v)) for k, v in pd.items() if dflt.get(k) != v)))
     return out
 
 
@@ -191,7 +194,12 @@ def stream_cases(rng, tier):
     for _ in range(n):
         G = T.Gen(S(), rng)
         k = rng.randrange(4)
-        names = [rng.choice(["ASCIIHexDecode", "ASCII85Decode", "RunLengthDecode", "FlateDecode", "LZWDecode"]) for _ in range([0, 1, 2, 3][k])]
+        # the image codecs and /Crypt are only *named* here (no parameters): the filter list read and written back must be
+        # the one the dictionary states (mutation sweep, survivor #0119)
+        pool = ["ASCIIHexDecode", "ASCII85Decode", "RunLengthDecode", "FlateDecode", "LZWDecode"]
+        if rng.random() < 0.35:
+            pool = pool + ["CCITTFaxDecode", "JBIG2Decode", "DCTDecode", "JPXDecode", "Crypt"]
+        names = [rng.choice(pool) for _ in range([0, 1, 2, 3][k])]
         d = {"Length": 0}
         parms = []
         for nm in names:
@@ -304,6 +312,71 @@ def font_cases(rng, tier):
         rng.shuffle(keys)
         d = {k: d[k] for k in keys}
         yield Case("typed_roundtrip", fields_line("Font", d, objs), check=check_font(d, objs), model=False, tags=tags)
+
+
+# ---------------------------------------------------------------------------------------------- Encoding (hand-written pair, no Coq model)
+# added after the mutation sweep (mutation/REPORT.md, survivor #0049 and seeded/C15c): the harness could dispatch "Encoding"
+# but no case ever named it.  Spec side: ISO 32000-1 Table 114 — /Differences `code name name … code name …` assigns
+# consecutive codes from each integer on; the written form must denote the same base encoding and the same code -> name map.
+
+BASE_ENCODINGS = ["StandardEncoding", "SymbolEncoding", "MacRomanEncoding", "WinAnsiEncoding", "MacExpertEncoding", "Identity-H"]
+
+
+def enc_denotation(p):
+    if isinstance(p, Name):
+        return p.s, {}
+    m, code = {}, 0
+    for x in p.get("Differences") or []:
+        if isinstance(x, Name):
+            m[code] = x.s
+            code += 1
+        else:
+            code = int(x)
+    b = p.get("BaseEncoding")
+    return (b.s if isinstance(b, Name) else None), m
+
+
+def check_encoding(v):
+    want = enc_denotation(v)
+
+    def chk(r):
+        if r[0] != "OK":
+            return "%s %s" % (r[0], r[1])
+        f = r[1]
+        if f[0] != b"ok" or len(f) < 6 or f[3] != b"ok":
+            return "round trip failed: " + b" ".join(f[:5]).decode("latin-1")
+        if f[1] != f[4]:
+            return "second write differs"
+        got = enc_denotation(T.uncanon(f[1]))
+        if got[1] != want[1]:
+            return "code -> glyph name map changed: %r -> %r" % (want[1], got[1])
+        if want[0] is not None and got[0] != want[0]:
+            return "base encoding changed: %r -> %r" % (want[0], got[0])
+        return None
+    return chk
+
+
+def encoding_cases(rng, tier):
+    glyphs = ["A", "Aacute", "bullet", "dotlessi", "caron", "ring", "space", "Euro", "f_i", "g123"]
+    for i in range(40 if tier == "quick" else 600):
+        if i % 5 == 0:
+            v = Name(rng.choice(BASE_ENCODINGS))
+        else:
+            v = {}
+            if rng.random() < 0.7:
+                v["BaseEncoding"] = Name(rng.choice(BASE_ENCODINGS))
+            arr, code = [], rng.choice([0, 1, 1, 32, 65, 128])
+            for _ in range(rng.randrange(0 if i % 5 == 1 else 1, 4)):        # runs in ascending order, gaps of 0..n between them
+                arr.append(code)
+                for _ in range(rng.randrange(1, 4)):
+                    arr.append(Name(rng.choice(glyphs)))
+                    code += 1
+                code += rng.choice([0, 1, 2, 40])
+                if code > 250:
+                    break
+            v["Differences"] = arr
+        yield Case("typed_roundtrip", fields_line("Encoding", v, []), check=check_encoding(v), model=False,
+                   tags=["hand:Encoding", "differences:%d" % (0 if isinstance(v, Name) else len(enc_denotation(v)[1]))])
 
 
 # ---------------------------------------------------------------------------------------------- containers on their own
@@ -538,6 +611,7 @@ def generate(rng, tier):
     yield from stream_cases(rng, tier)
     yield from font_cases(rng, tier)
     yield from hand_cases(rng, tier)
+    yield from encoding_cases(rng, tier)
     for _ in range(40 if tier == "quick" else 600):          # explicit destinations: outside the Coq model
         G = T.Gen(S(), rng)
         v = G.action(dests=True)
@@ -583,6 +657,8 @@ def witness_case(f, c):
         objs = [T.uncanon(x) for x in c.fields[2:]]
         if name.startswith("Stream<"):
             c.check, c.model = check_stream(v, name != "Stream<()>"), False
+        elif name == "Encoding" and not any(t.startswith("witness:") for t in c.tags):
+            c.check, c.model = check_encoding(v), False
         elif name == "Font":
             c.check, c.model = check_font(v), False
             c.tags.add("class:font-other")
